@@ -217,11 +217,40 @@ pub fn check_roundtrip<F: Fl>(c: &CCase) -> Result<String, (String, String)> {
 pub struct CParams {
     pub n: usize,
     pub max_l: usize,
+    /// > 0: the large structured families instead of the small shapes (a few
+    /// fixed hash seeds; iteration orders are not enumerable at that size)
+    #[serde(default)]
+    pub large: usize,
 }
 
 pub fn sweep<F: Fl>(job: &Job, out: &mut Out) {
     let p: CParams = serde_json::from_value(job.params.clone()).expect("csweep params");
     let prop = job.property.as_str();
+    if p.large > 0 {
+        for (gi, (name, n, conns)) in crate::gsweep::large_graphs(p.large).iter().enumerate() {
+            if gi % job.nshards != job.shard {
+                continue;
+            }
+            crate::progress::set_case(|| json!({"kind":"csweep-shape","flavour":F::NAME,"n":n,"conns":conns,"name":name}).to_string());
+            out.stats.inc("shapes");
+            let ins: Vec<K> = (0..*n as K).collect();
+            for seed in [0u64, 1, 2] {
+                let fmts: &[&str] = if prop == "C12" { &["json", "cbor"] } else { &[""] };
+                for fmt in fmts {
+                    crate::progress::tick();
+                    let c = CCase { n: *n, conns: conns.clone(), insertion: ins.clone(), seed, seed2: seed + 11, fmt: fmt.to_string() };
+                    out.stats.inc("evaluations");
+                    out.stats.inc("nontrivial");
+                    out.stats.max("max_nodes", *n as u64);
+                    let r = if prop == "C11" { check_scc::<F>(&c) } else { check_roundtrip::<F>(&c) };
+                    if let Err((class, what)) = r {
+                        out.report(Violation { property: prop.into(), engine: "csweep".into(), flavour: F::NAME.into(), class, what: what.chars().take(600).collect(), case: json!({"kind":"csweep","flavour":F::NAME,"case":c,"program":c.program(F::NAME)}), order: (conns.len() * 100 + n) as u64 });
+                    }
+                }
+            }
+        }
+        return;
+    }
     let all_shapes = shapes::<F>(p.n, p.max_l);
     let asc: Vec<K> = (0..p.n as K).collect();
     let desc: Vec<K> = asc.iter().rev().cloned().collect();
